@@ -227,6 +227,9 @@ hwloc_shmem_topology_adopt(hwloc_topology_t *topologyp,
   memcpy(new->support.membind, old->support.membind, sizeof(*new->support.membind));
   memcpy(new->support.misc, old->support.misc, sizeof(*new->support.misc));
   hwloc_set_binding_hooks(new);
+  /* hwloc_topology_allow() is permitted on adopted topologies, it needs writable allowed sets */
+  new->allowed_cpuset = hwloc_bitmap_dup(old->allowed_cpuset);
+  new->allowed_nodeset = hwloc_bitmap_dup(old->allowed_nodeset);
   /* clear userdata callbacks pointing to the writer process' functions */
   new->userdata_export_cb = NULL;
   new->userdata_import_cb = NULL;
@@ -262,6 +265,8 @@ hwloc__topology_disadopt(hwloc_topology_t topology)
 {
   hwloc_components_fini();
   hwloc__free_infos(&topology->infos);
+  hwloc_bitmap_free(topology->allowed_cpuset);
+  hwloc_bitmap_free(topology->allowed_nodeset);
   munmap(topology->adopted_shmem_addr, topology->adopted_shmem_length);
   free(topology->support.discovery);
   free(topology->support.cpubind);
